@@ -302,6 +302,14 @@ func c17R4(p *Prog, r *Report, e *RaceEngine) {
 		view
 	)
 	var where string
+	var msgStore ssa.Instruction // the store that puts the slice into the message
+	// persistent: the local cell lives across iterations of the loop in which the message is built
+	persistent := func(al *ssa.Alloc) bool {
+		if msgStore == nil || !InLoop(msgStore) {
+			return false
+		}
+		return al.Block() != msgStore.Block() && !InLoopWith(al, msgStore) && al.Block().Dominates(msgStore.Block())
+	}
 	var classify func(fn *ssa.Function, v ssa.Value, d int) origin
 	// embeddedInLongLived: fa selects a field of a message-typed struct that is itself an embedded
 	// field of a non-message struct (DataStream embeds DataSegment): that object is not a message.
@@ -402,8 +410,19 @@ func c17R4(p *Prog, r *Report, e *RaceEngine) {
 				}
 				return moved
 			case *ssa.IndexAddr:
+				// element of an array / slice of slices kept in a local that outlives the iteration
+				if al, ok := a.X.(*ssa.Alloc); ok && persistent(al) {
+					where = "the local buffer set " + al.Comment + " kept across iterations (element loaded at " + p.InstrPos(x) + ")"
+					return view
+				}
 				return classify(fn, a.X, d+1) // element of a slice of slices: as its container
 			case *ssa.Alloc:
+				if persistent(a) {
+					if _, isSlice := derefType(a.Type()).Underlying().(*types.Slice); isSlice {
+						where = "the local buffer " + a.Comment + " kept across iterations (loaded at " + p.InstrPos(x) + ")"
+						return view
+					}
+				}
 				// local variable: single store
 				res := unknown
 				n := 0
@@ -456,7 +475,26 @@ func c17R4(p *Prog, r *Report, e *RaceEngine) {
 			cnt[base]++
 			r.Fn(FuncName(fn))
 			where = ""
+			msgStore = st
 			o := classify(fn, st.Val, 0)
+			// a fresh slice of slices: what was put into its elements counts too
+			if mk, isMk := st.Val.(*ssa.MakeSlice); isMk && o == fresh {
+				if _, nested := mk.Type().Underlying().(*types.Slice).Elem().Underlying().(*types.Slice); nested {
+					for _, ref := range *mk.Referrers() {
+						ia, isIA := ref.(*ssa.IndexAddr)
+						if !isIA {
+							continue
+						}
+						for _, r2 := range *ia.Referrers() {
+							if es, isSt := r2.(*ssa.Store); isSt && es.Addr == ssa.Value(ia) {
+								if classify(fn, es.Val, 0) == view {
+									o = view
+								}
+							}
+						}
+					}
+				}
+			}
 			key := fmt.Sprintf("%s #%d", base, cnt[base])
 			names := map[origin]string{unknown: "not a definite view (parameter, call result or unresolved local)", fresh: "freshly allocated", moved: "taken over from another message"}
 			r.Check(o != view, "C17.R4", key, p.InstrPos(st), names[o],
